@@ -14,14 +14,17 @@ Proved exactly over any field, unbounded n: the matrix the code inverts, sum of 
 of length m sum to P_total^m and regroup by configuration through distinct orderings, total mass of
 <= M mutations = 1 - alpha P_total^(M+1) 1, empty configuration = resolvent form of the Laplace
 transform, expected counts = theta times expected SFS, first-step recursion, `_unfold` lists exactly
-the unfoldings, `_get_partitions` and the distinct-orderings spec. Partial: non-negativity of the
-resolvent (M-matrix), PT4.
+the unfoldings, `_get_partitions` and the distinct-orderings spec. The numbers are probabilities:
+for a sub-generator (off-diagonals >= 0, row sums <= 0), theta > 0 and positive total reward the
+resolvent is entrywise non-negative (M-matrix minimum principle), hence every configuration
+probability lies in [0, 1] and every partial mass in [0, 1]. Partial: PT4.
 
 This file restates the theorems the property rests on (full statements; proofs are in PGProofs/).
 Generated once by harness/mkprops.py from harness/props_table.py + PGProperties/extra/C16.lean.in; committed as source.
 -/
 import PGProofs.DriverPath
 import PGProofs.MutConfig
+import PGProofs.MutConfigNonneg
 
 set_option linter.all false
 set_option pp.fieldNotation.generalized false
@@ -86,6 +89,30 @@ theorem partitions_spec : ∀ (m n : ℕ), 1 ≤ n → List.Nodup (partitionsOf 
 /-- _unfold lists exactly the configurations that fold to the given one -/
 theorem unfold_spec : ∀ (n : ℕ) (config : List ℕ), List.length config = n / 2 → 2 ≤ n → List.Nodup (unfoldConfig n config) ∧ ∀ (u : List ℕ), u ∈ unfoldConfig n config ↔ List.length u = n - 1 ∧ foldConfig n u = config := @PG.unfoldConfig_spec
 
+/-- M-MATRIX: (theta D - S)^-1 is entrywise non-negative for every sub-generator S, theta > 0, positive total reward (minimum principle for Z-matrices with positive row sums) -/
+theorem resolvent_nonneg : ∀ {K : Type u_1} [inst : Field K] [inst_1 : LinearOrder K] [IsStrictOrderedRing K] {ι : Type u_2} [inst_3 : Fintype ι] [inst_4 : DecidableEq ι] {n : ℕ} {θ : K} {R : Fin n → ι → K} {S G : Matrix ι ι K}, (∀ (i j : ι), i ≠ j → 0 ≤ S i j) → (∀ (i : ι), ∑ j, S i j ≤ 0) → 0 < θ → (∀ (s : ι), 0 < mcRtot R s) → (θ • mcD R - S) * G = 1 → ∀ (i j : ι), 0 ≤ G i j := @PG.resolvent_nonneg
+
+/-- the matrix the code inverts is invertible under the same hypotheses -/
+theorem resolvent_exists : ∀ {K : Type u_1} [inst : Field K] [inst_1 : LinearOrder K] [IsStrictOrderedRing K] {ι : Type u_2} [inst_3 : Fintype ι] [inst_4 : DecidableEq ι] {n : ℕ} {θ : K} {R : Fin n → ι → K} {S : Matrix ι ι K}, (∀ (i j : ι), i ≠ j → 0 ≤ S i j) → (∀ (i : ι), ∑ j, S i j ≤ 0) → 0 < θ → (∀ (s : ι), 0 < mcRtot R s) → Matrix.det (θ • mcD R - S) ≠ 0 := @PG.resolvent_det_ne_zero
+
+/-- every configuration probability (sum over distinct orderings) is >= 0 -/
+theorem prob_nonneg : ∀ {K : Type u_1} [inst : Field K] [inst_1 : LinearOrder K] [IsStrictOrderedRing K] {ι : Type u_2} [inst_3 : Fintype ι] [inst_4 : DecidableEq ι] {n : ℕ} {θ : K} {R : Fin n → ι → K} {S G : Matrix ι ι K}, (∀ (i j : ι), i ≠ j → 0 ≤ S i j) → (∀ (i : ι), ∑ j, S i j ≤ 0) → 0 < θ → (∀ (i : Fin n) (s : ι), 0 ≤ R i s) → (∀ (s : ι), 0 < mcRtot R s) → (θ • mcD R - S) * G = 1 → ∀ {α : ι → K}, (∀ (s : ι), 0 ≤ α s) → ∀ (q : List ℕ), 0 ≤ α ⬝ᵥ Matrix.mulVec (orderingsSum (mcPnat G θ R) q) (mcptot G θ R) := @PG.config_orderings_prob_nonneg
+
+/-- and <= 1 -/
+theorem prob_le_one : ∀ {K : Type u_1} [inst : Field K] [inst_1 : LinearOrder K] [IsStrictOrderedRing K] {ι : Type u_2} [inst_3 : Fintype ι] [inst_4 : DecidableEq ι] {n : ℕ} {θ : K} {R : Fin n → ι → K} {S G : Matrix ι ι K}, (∀ (i j : ι), i ≠ j → 0 ≤ S i j) → (∀ (i : ι), ∑ j, S i j ≤ 0) → 0 < θ → (∀ (i : Fin n) (s : ι), 0 ≤ R i s) → (∀ (s : ι), 0 < mcRtot R s) → (θ • mcD R - S) * G = 1 → ∀ {α : ι → K}, (∀ (s : ι), 0 ≤ α s) → ∑ s, α s ≤ 1 → 1 ≤ n → ∀ {c : List ℕ}, List.length c = n → α ⬝ᵥ Matrix.mulVec (orderingsSum (mcPnat G θ R) (configWord c)) (mcptot G θ R) ≤ 1 := @PG.config_orderings_prob_le_one
+
+/-- the mass of all configurations with at most M mutations is <= 1 (and >= 0: config_mass_nonneg) -/
+theorem mass_le_one : ∀ {K : Type u_1} [inst : Field K] [inst_1 : LinearOrder K] [IsStrictOrderedRing K] {ι : Type u_2} [inst_3 : Fintype ι] [inst_4 : DecidableEq ι] {n : ℕ} {θ : K} {R : Fin n → ι → K} {S G : Matrix ι ι K}, (∀ (i j : ι), i ≠ j → 0 ≤ S i j) → (∀ (i : ι), ∑ j, S i j ≤ 0) → 0 < θ → (∀ (s : ι), 0 < mcRtot R s) → (θ • mcD R - S) * G = 1 → ∀ {α : ι → K}, (∀ (s : ι), 0 ≤ α s) → ∑ s, α s ≤ 1 → ∀ (M : ℕ), ∑ m' ∈ Finset.range (M + 1), α ⬝ᵥ Matrix.mulVec (mcPtot G θ R ^ m') (mcptot G θ R) ≤ 1 := @PG.config_mass_le_one
+
+/-- the EXECUTABLE mutConfigProb returns a non-negative number under the sign hypotheses on its inputs -/
+theorem executable_prob_nonneg : ∀ {S : RMat} {R : List (Array ℚ)} {alpha : Array ℚ} {θ : ℚ} {config : List ℕ} {p : ℚ}, mutConfigProb S R alpha θ config = some p → (∀ (i j : Fin (Array.size S)), i ≠ j → 0 ≤ toMatrix (Array.size S) S i j) → (∀ (i : Fin (Array.size S)), ∑ j, toMatrix (Array.size S) S i j ≤ 0) → 0 < θ → (∀ (i : Fin (List.length R)) (s : Fin (Array.size S)), 0 ≤ rFun (Array.size S) R i s) → (∀ (s : Fin (Array.size S)), 0 < mcRtot (rFun (Array.size S) R) s) → (∀ (s : Fin (Array.size S)), 0 ≤ toVec (Array.size S) alpha s) → List.length config ≤ List.length R → 0 ≤ p := @PG.mutConfigProb_nonneg
+
+/-- and at most 1 -/
+theorem executable_prob_le_one : ∀ {S : RMat} {R : List (Array ℚ)} {alpha : Array ℚ} {θ : ℚ} {config : List ℕ} {p : ℚ}, mutConfigProb S R alpha θ config = some p → (∀ (i j : Fin (Array.size S)), i ≠ j → 0 ≤ toMatrix (Array.size S) S i j) → (∀ (i : Fin (Array.size S)), ∑ j, toMatrix (Array.size S) S i j ≤ 0) → 0 < θ → (∀ (i : Fin (List.length R)) (s : Fin (Array.size S)), 0 ≤ rFun (Array.size S) R i s) → (∀ (s : Fin (Array.size S)), 0 < mcRtot (rFun (Array.size S) R) s) → (∀ (s : Fin (Array.size S)), 0 ≤ toVec (Array.size S) alpha s) → ∑ s, toVec (Array.size S) alpha s ≤ 1 → 1 ≤ List.length R → List.length config = List.length R → p ≤ 1 := @PG.mutConfigProb_le_one
+
+/-- M x >= 0 implies x >= 0 for a Z-matrix with strictly positive row sums -/
+theorem minimum_principle : ∀ {K : Type u_1} [inst : Field K] [inst_1 : LinearOrder K] [IsStrictOrderedRing K] {ι : Type u_2} [inst_3 : Fintype ι] [DecidableEq ι] {M : Matrix ι ι K}, (∀ (i j : ι), i ≠ j → M i j ≤ 0) → (∀ (i : ι), 0 < ∑ j, M i j) → ∀ {x : ι → K}, (∀ (i : ι), 0 ≤ Matrix.mulVec M x i) → ∀ (i : ι), 0 ≤ x i := @PG.zmatrix_minimum_principle
+
 end PG.C16
 
 #print axioms PG.C16.executable_getP
@@ -107,3 +134,11 @@ end PG.C16
 #print axioms PG.C16.orderings_spec
 #print axioms PG.C16.partitions_spec
 #print axioms PG.C16.unfold_spec
+#print axioms PG.C16.resolvent_nonneg
+#print axioms PG.C16.resolvent_exists
+#print axioms PG.C16.prob_nonneg
+#print axioms PG.C16.prob_le_one
+#print axioms PG.C16.mass_le_one
+#print axioms PG.C16.executable_prob_nonneg
+#print axioms PG.C16.executable_prob_le_one
+#print axioms PG.C16.minimum_principle
